@@ -1335,18 +1335,20 @@ def run(ck: Check) -> None:
     ck.assumptions += [
         "sort_data_models reads of a model only path, reference_classes and base_classes[i].reference.path (by reading; the stand-in objects of the exhaustive campaigns expose exactly these)",
         "paths of the models handed to the sorter are pairwise distinct (C06: the resolver keeps one model per path); the overwrite on equal paths is modelled and exhibited (sort_loses_duplicate_path)",
-        "Python's own RecursionError (recursion deeper than the interpreter stack) is not modelled; sort_total covers recursion_count >= number of models",
+        "Python's own RecursionError is modelled as striking at the nested call of sort_data_models or in the callee before its first write (sortGoS); observed on the real function with stand-in objects whose attributes are plain values; with real DataModel objects only the result oracle is applied",
+        "the generator's pipeline apart from the ordering stage needs some stack of its own: end-to-end runs on a lowered recursion limit that also fail for the referent-first order of the same models are counted as unmodelled, not as failures",
+        "__reuse_model is modelled for object models (Enum and type-alias branches: end-to-end oracle only); equality of renderings is represented by a key computed from the written definition (mark, members, bases)",
         "the end-to-end oracle treats a base list that Python itself rejects (MRO conflict, duplicate base) as outside C11: no order of classes could repair it",
     ]
     campaign_sort(ck, 500 if quick else 5000, 3 if quick else 4)
     campaign_stack(ck, 120 if quick else 600, not quick)
     campaign_bubble(ck, 4 if quick else 5)
+    campaign_e2e_keep_order(ck, 60 if quick else 500)  # before the function-level campaign: a failing DOCUMENT becomes the replay
     campaign_sort_models(ck, 600 if quick else 6000)
     campaign_e2e(ck, 240 if quick else 2000)
     campaign_reuse(ck, 200 if quick else 2000)
     campaign_e2e_post(ck, 120 if quick else 900)
     campaign_e2e_deep(ck, 10 if quick else 60)
-    campaign_e2e_keep_order(ck, 60 if quick else 500)
     campaign_e2e_modular(ck, 80 if quick else 400)
     ck.search_hooks.append(search_e2e)
     known_findings(ck)
